@@ -31,7 +31,7 @@ inline std::string repr(long v) { return std::to_string(v); }
 inline std::string repr(long long v) { return std::to_string(v); }
 inline std::string repr(unsigned long v) { return std::to_string(v); }
 inline std::string repr(unsigned int v) { return std::to_string(v); }
-inline std::string repr(double v) { char b[64]; std::snprintf(b, sizeof b, "%.17g", v); return b; }
+inline std::string repr(double v) { if (v == 0) return "0"; /* -0.0 and 0.0 are the same value */ char b[64]; std::snprintf(b, sizeof b, "%.17g", v); return b; }
 inline std::string repr(float v) { return repr(double(v)); }
 inline std::string repr(const std::string& s) {
 	std::string o = "'";
